@@ -66,6 +66,12 @@ type Case struct {
 	// node objects; they reach the file when the stream is closed, so the
 	// tree writer must not reuse storage between nodes.
 	InStream bool `json:"in_stream,omitempty"`
+	// Sign selects a sign regime for the keys of a number tree (0: none, the
+	// keys come from Style): 1 all negative, 2 all non-negative, 3 mixed,
+	// 4 a block of at least 4096 negative keys (one full intermediate node)
+	// followed by further keys.  Style then picks where the keys lie (near
+	// zero, at the extremes of int64, anywhere).
+	Sign int `json:"sign,omitempty"`
 	// Edits are size-preserving changes applied to the exported Data map of
 	// an InMemory tree after one full All() pass; the edited tree must then
 	// enumerate, look up and embed as the edited map.  EditDirect applies
@@ -221,7 +227,12 @@ func checkCase(c *Case) error {
 		noteNameClasses(c, raw)
 		return run(c, nameAPI, keys)
 	case "num":
-		raw := expandNums(c.N, c.Style, c.Seed, c.ExtraNums)
+		var raw []int64
+		if c.Sign != 0 {
+			raw = expandNumsSigned(c.N, c.Sign, c.Style, c.Seed, c.ExtraNums)
+		} else {
+			raw = expandNums(c.N, c.Style, c.Seed, c.ExtraNums)
+		}
 		keys := make([]pdf.Integer, len(raw))
 		for i, k := range raw {
 			keys[i] = pdf.Integer(k)
